@@ -59,10 +59,31 @@ pub fn run_c14(ctx: &Ctx) -> Report {
         }
         let cmds = vec![Cmd::prepare(b"p"), if bin { Cmd::execute(1, &[], false) } else { Cmd::query(b"q") }, Cmd::ping()];
         let scripts = vec![Script::PrepOk { id: 1, params: vec![], cols: vec![] }, Script::Q(QProg { colsets: vec![], ops, on_err: OnErr::Drop })];
-        let obs = run_case(&varied_case(rng, cmds, scripts));
+        let mut case = varied_case(rng, cmds, scripts);
+        // a fifth of the cases: a transport that takes a few bytes at a time and, once, says "not now"
+        // (WouldBlock / TimedOut / Interrupted) - often with part of a packet already taken. The server
+        // may give up; if run_on returns Ok the counts the client decodes are the ones reported
+        let slow = !ctx.miri && i % 5 == 3 && !case.over_tls;
+        if slow {
+            case.write_limit = *rng.pick(&[1usize, 2, 3, 7]);
+            case.fault = Default::default();
+            let dry = run_case(&case);
+            let nops = dry.world.nops.max(2);
+            case.fault.err_at = Some(nops / 3 + rng.below(nops - nops / 3));
+            case.fault.persistent = false;
+            case.fault.err_kind = 100 + (i / 5 % 3) as u8;
+        }
+        let obs = run_case(&case);
         rep.evaluations += 1;
         if harness_panic(&obs, rep) {
             return;
+        }
+        if slow {
+            if obs.outcome != Outcome::Ok {
+                rep.counters.inc("slow_transport_ended_the_connection");
+                return;
+            }
+            rep.counters.inc("slow_transport_survived_counts_compared");
         }
         for (a, b) in &vals {
             rep.counters.class(format!("rows={} id={} {} {}", lenenc_class(*a), lenenc_class(*b), if bin { "bin" } else { "text" }, if chain > 1 { "chained" } else { "single" }));
